@@ -534,7 +534,7 @@ def run(ctx):
                 "operator application and the exact solution; prox: lattice input with exact output; kkt: A, b, x*, g, regulariser, "
                 "steps; lm: family with its stationary points and starts; wrap: wrapper x method x objective); distinct = problem x "
                 "call-site / operator form / solver variant")
-    ctx.exhaustive = True
+    ctx.exhaustive = ctx.tier == "quick"      # thorough adds a SAMPLE of the size-3 problems (every Dim3Mod-th matrix)
     ctx.traces = counts.get("cg", 0)
     ctx.assumptions += ["numpy.linalg.eigvalsh for the strong-convexity constant in the FISTA tolerance",
                         "SciPy called directly is the reference for the wrapper relation",
